@@ -198,7 +198,8 @@ def get_lonlatalt(pos, utc_time):
         lat2 = lat
         c = 1 / (np.sqrt(1 - e2 * (np.sin(lat2) ** 2)))
         lat = np.arctan2(pos_z + c * e2 * np.sin(lat2), r)
-        if np.all(abs(lat - lat2) < 1e-10):
+        # NaN positions (pixels missing the ellipsoid) never converge: ignore them
+        if np.all((abs(lat - lat2) < 1e-10) | np.isnan(lat)):
             break
     alt = r / np.cos(lat) - c
     alt *= A
